@@ -192,33 +192,51 @@ pub fn part_shlib(tier: Tier) -> Part {
         hs.push(H { name: "dep-by-line-at-stop", pre: vec![bp_line_main.clone()], at_main: vec![json!({"op": "break_line_deferred", "file": "dep.rs", "line": 3})], active: vec![("dep_inner", 1)] });
         hs.push(H { name: "plugin-at-stop-before-load", pre: vec![bp_line_main.clone()], at_main: vec![bp_fn("plug_inner")], active: vec![("plug_inner", 1)] });
     }
-    for h in &hs {
+    let script_of = |h: &H| -> Vec<Value> {
         let has_main_stop = !h.at_main.is_empty();
-        let expected: Vec<(usize, &(&str, u64, u64))> = calls.iter().enumerate().filter(|(i, c)| h.active.iter().any(|(f, from)| *f == c.0 && i >= from)).collect();
-        let mut cmds: Vec<Value> = h.pre.clone();
-        cmds.push(json!({"op": "start", "bt": true}));
+        let n_expected = calls.iter().enumerate().filter(|(i, c)| h.active.iter().any(|(f, from)| *f == c.0 && i >= from)).count();
+        let mut script: Vec<Value> = h.pre.clone();
+        script.push(json!({"op": "start", "bt": true}));
         if has_main_stop {
-            cmds.extend(h.at_main.clone());
-            cmds.push(json!({"op": "continue", "bt": true}));
+            script.extend(h.at_main.clone());
+            script.push(json!({"op": "continue", "bt": true}));
         }
         // at every expected stop: args, libs; then continue
-        let mut script: Vec<Value> = cmds.clone();
-        for _ in 0..expected.len() + 1 {
+        for _ in 0..n_expected + 1 {
             script.push(json!({"op": "values", "names": [], "derefs": []}));
             script.push(json!({"op": "sharedlibs"}));
             script.push(json!({"op": "continue", "bt": true}));
         }
-        let run = crate::mt::session_init(
-            json!({"exe": host, "args": [dir]}),
-            |obs| {
-                if obs.last().map(|o| o["res"]["kind"] == "exit" || o["res"]["ok"] == false).unwrap_or(false) {
-                    return None;
-                }
-                script.get(obs.len()).cloned()
-            },
-            Duration::from_secs(60),
-            script.len(),
-        );
+        script
+    };
+    // independent sessions: run side by side, judge afterwards
+    let scripts: Vec<Vec<Value>> = hs.iter().map(script_of).collect();
+    let mut runs: std::collections::VecDeque<crate::mt::Run> = {
+        use rayon::prelude::*;
+        let pool = rayon::ThreadPoolBuilder::new().num_threads(8).build().unwrap();
+        pool.install(|| {
+            scripts
+                .par_iter()
+                .map(|script| {
+                    crate::mt::session_init(
+                        json!({"exe": host, "args": [dir]}),
+                        |obs| {
+                            if obs.last().map(|o| o["res"]["kind"] == "exit" || o["res"]["ok"] == false).unwrap_or(false) {
+                                return None;
+                            }
+                            script.get(obs.len()).cloned()
+                        },
+                        Duration::from_secs(60),
+                        script.len(),
+                    )
+                })
+                .collect::<Vec<_>>()
+                .into()
+        })
+    };
+    for (h, script) in hs.iter().zip(scripts.iter()) {
+        let expected: Vec<(usize, &(&str, u64, u64))> = calls.iter().enumerate().filter(|(i, c)| h.active.iter().any(|(f, from)| *f == c.0 && i >= from)).collect();
+        let run = runs.pop_front().unwrap();
         part.evaluations += 1;
         part.states += run.obs.len() as u64;
         part.transitions += run.obs.len() as u64;
@@ -340,8 +358,8 @@ pub fn part_names_across_objects(_tier: Tier) -> Part {
         ("twi", &[]),
         ("twinn", &[]),
     ];
-    for (tpl, selected) in templates {
-        let script = vec![
+    let script_for = |tpl: &str| -> Vec<Value> {
+        vec![
             json!({"op": "break_line", "file": "host.rs", "line": after_reload_line}),
             json!({"op": "start"}),
             json!({"op": "sharedlibs"}),
@@ -353,18 +371,35 @@ pub fn part_names_across_objects(_tier: Tier) -> Part {
             json!({"op": "continue"}),
             json!({"op": "values", "names": [], "derefs": []}),
             json!({"op": "continue"}),
-        ];
-        let run = crate::mt::session_init(
-            json!({"exe": host, "args": [dir]}),
-            |obs| {
-                if obs.last().map(|o| o["res"]["kind"] == "exit").unwrap_or(false) {
-                    return None;
-                }
-                script.get(obs.len()).cloned()
-            },
-            Duration::from_secs(60),
-            script.len(),
-        );
+        ]
+    };
+    let mut runs: std::collections::VecDeque<crate::mt::Run> = {
+        use rayon::prelude::*;
+        let pool = rayon::ThreadPoolBuilder::new().num_threads(8).build().unwrap();
+        pool.install(|| {
+            templates
+                .par_iter()
+                .map(|(tpl, _)| {
+                    let script = script_for(tpl);
+                    crate::mt::session_init(
+                        json!({"exe": host, "args": [dir]}),
+                        |obs| {
+                            if obs.last().map(|o| o["res"]["kind"] == "exit").unwrap_or(false) {
+                                return None;
+                            }
+                            script.get(obs.len()).cloned()
+                        },
+                        Duration::from_secs(60),
+                        script.len(),
+                    )
+                })
+                .collect::<Vec<_>>()
+                .into()
+        })
+    };
+    for (tpl, selected) in templates {
+        let script = script_for(tpl);
+        let run = runs.pop_front().unwrap();
         part.evaluations += 1;
         part.states += run.obs.len() as u64;
         part.transitions += run.obs.len() as u64;
